@@ -70,10 +70,15 @@ def main(argv=None):
     except AnchorMissing as e:
         run.error("anchor vanished: %s" % e)
     except Unrecognised as e:
-        loc = ""
+        # The rules certify the property for code of the forms they can read.  Code they cannot read is code for which the property is
+        # NOT established: that is reported as a violation of the rule that was being evaluated (with the construct named), not as an
+        # analysis error -- a vanished anchor, a floor that is not met or a crash remain analysis errors (exit 2).
+        loc = "sigpy/?"
         if getattr(e, "node", None) is not None and hasattr(e.node, "lineno"):
-            loc = " (line %s)" % e.node.lineno
-        run.error("unrecognised construct%s: %s" % (loc, e))
+            loc = "line %s" % e.node.lineno
+        last_rule = run.obligations[-1][0] if run.obligations else (sorted(run.rules)[0] if run.rules else "FORM")
+        run.bad("FORM", "unrecognised construct", loc, "after rule %s: the code at %s has a form none of the rules of %s can certify (%s); the property is not "
+                "established for it" % (last_rule, loc, pid, e), stmt="FORM:%s" % str(e)[:80])
     except Exception as e:  # never a traceback exit
         tb = traceback.format_exc().strip().splitlines()
         run.error("checker crashed: %r at %s" % (e, " | ".join(x.strip() for x in tb[-4:-1])))
